@@ -1,7 +1,7 @@
 (* Properties/C06.v — C06: a data node restarted after a crash serves exactly the acknowledged state.
    This file contains only the property theorems (closed by [exact]) and non-vacuity examples. *)
 From Coq Require Import NArith List Bool.
-From ZV Require Import Recover.Consts Recover.Path Recover.ProofsWal Recover.Proofs.
+From ZV Require Import Recover.Consts Recover.Path Recover.ProofsWal Recover.ProofsInv Recover.ProofsMain Recover.Proofs.
 Import ListNotations.
 Open Scope N_scope.
 
@@ -24,6 +24,60 @@ Theorem C06_restart_of_wellformed_world : forall ss lo hi sf cks m,
   recover ss sf cks = Ok (range 0 hi).
 Proof. exact recover_chain. Qed.
 Print Assumptions C06_restart_of_wellformed_world.
+
+(* C06 on the path model. For every run of the model from a fresh directory (any interleaving of the raft loop,
+   the apply loop, the snapshot goroutines, the backup loop and the purge loops at sub-step granularity; any
+   Readys the raft library may hand out; any number of earlier process deaths and restarts, also deaths during a
+   restart) that respects the schedule hypothesis (at most one snapshot goroutine between "snap file written" and
+   "WAL marker written"), for every instant of the process death (every reachable state is one) and every crash
+   image of that state under process death (any part of the buffered WAL records lost, any prefix of a Save in
+   flight written): the restart procedure (choose the newest snapshot that the WAL records and whose file exists,
+   restore the engine from its checkpoint, read the WAL back from it, replay) succeeds, and the state it serves is
+   the result of applying the entries 1..k in order, with k at least the last acknowledged index and at most the
+   last proposed one. The engine content found after the death is never used. *)
+Theorem C06_recover_correct : forall c evs s,
+  run c init_state evs = Ok s -> sched_ok c init_state evs ->
+  forall j extra ss, image s j extra = Some ss ->
+  exists k, recover ss (snapfiles s) (ckpts s) = Ok (range 0 k) /\ acked s <= k <= proposed s.
+Proof. exact recover_correct. Qed.
+Print Assumptions C06_recover_correct.
+
+(* the same property without the schedule hypothesis is false of the model (C06_two_snapshots_in_flight_refuted below) *)
+Definition C06_full : Prop := forall c evs s,
+  run c init_state evs = Ok s ->
+  forall j extra ss, image s j extra = Some ss ->
+  exists k, recover ss (snapfiles s) (ckpts s) = Ok (range 0 k) /\ acked s <= k <= proposed s.
+
+(* the ordering invariants of the design, for every reachable state: (I1, I2) the newest snapshot marker of the WAL
+   has its snap file and its checkpoint, and the checkpoint holds the state at that index; (I3) the live WAL
+   segments do not start after that snapshot and still hold its marker; (I4) every acknowledged entry is in every
+   crash image of the WAL *)
+Theorem C06_ordering_invariants : forall c evs s,
+  run c init_state evs = Ok s -> sched_ok c init_state evs ->
+  I1_I2_newest_marker_has_file_and_checkpoint s /\ I3_wal_not_purged_past_newest_snapshot s
+  /\ I4_acknowledged_entries_are_in_every_crash_image s.
+Proof. exact ordering_invariants. Qed.
+Print Assumptions C06_ordering_invariants.
+
+(* the restart never needs a manual repair: from the state right after a process death the steps of startRaft are
+   enabled one after the other up to the running node, which holds the snapshot state and the WAL tail to replay *)
+Theorem C06_restart_succeeds : forall c s,
+  Inv c s -> rc s = RcStart ->
+  exists evs s', run c s evs = Ok s' /\ running s' = true
+    /\ applied s' = newest (segs s) /\ engine s' = Some (range 0 (newest (segs s)))
+    /\ range (applied s') (rs_last s') = range (newest (segs s)) (rs_last s') /\ acked s <= rs_last s' <= proposed s.
+Proof. exact restart_succeeds. Qed.
+Print Assumptions C06_restart_succeeds.
+
+(* the invariant is what every reachable state satisfies (so C06_restart_succeeds applies after every death) *)
+Theorem C06_invariant_reachable : forall c evs s,
+  sched_ok c init_state evs -> run c init_state evs = Ok s -> Inv c s.
+Proof. exact inv_reachable. Qed.
+Print Assumptions C06_invariant_reachable.
+
+(* non-vacuity of the hypotheses: a non-trivial run satisfies them *)
+Example C06_hypotheses_satisfiable : sched_ok (cfg2 true) init_state trace_cycle.
+Proof. exact cycle_sched. Qed.
 
 (* non-vacuity: a run of the model that crosses a cut, a snapshot, a release, a WAL purge, ends in a crash and
    a complete restart; the restarted node holds the snapshot state and replays the tail *)
